@@ -19,14 +19,18 @@ pub fn exec(db: &dyn IndexDatabase, file_id: FileId) -> Option<Vec<DocumentSymbo
     let mut symbols = Vec::new();
     for symbol_id in iter {
         let symbol = symbol_map.symbol(symbol_id);
-        if let Some(document_symbol) = symbol_to_document_symbol(symbol_map, symbol) {
+        if let Some(document_symbol) = symbol_to_document_symbol(symbol_map, symbol, file_id) {
             symbols.push(document_symbol);
         }
     }
     Some(symbols)
 }
 
-fn symbol_to_document_symbol(symbol_map: &SymbolMap, symbol: Symbol) -> Option<DocumentSymbol> {
+fn symbol_to_document_symbol(
+    symbol_map: &SymbolMap,
+    symbol: Symbol,
+    file_id: FileId,
+) -> Option<DocumentSymbol> {
     match symbol {
         Symbol::Record(record) if record.kind == RecordKind::Class => {
             let template_argument_list = record
@@ -84,7 +88,10 @@ fn symbol_to_document_symbol(symbol_map: &SymbolMap, symbol: Symbol) -> Option<D
                 .def_list
                 .iter()
                 .map(|id| symbol_map.symbol((*id).into()))
-                .filter_map(|symbol| symbol_to_document_symbol(symbol_map, symbol));
+                // a def that an include inside the defset body brought in lives in another
+                // file: its range means nothing in this file's outline
+                .filter(|symbol| symbol.define_loc().file == file_id)
+                .filter_map(|symbol| symbol_to_document_symbol(symbol_map, symbol, file_id));
 
             Some(DocumentSymbol {
                 name: defset.name.clone(),
